@@ -200,6 +200,26 @@ def value_checks(seed):
                 bad.append(dict(case=nm, violated='get_residuals does not return exactly the user\'s equations applied to the solution '
                                 '(a single tensor for one equation, a list otherwise)', returned=len(lst), equations=n_eq,
                                 container=type(res).__name__))
+        # (iv) coordinates of different shapes with the same number of points: the result has the shape of the FIRST one
+        name, solver, eqs, coords = cases[2]
+        xa, ya = torch.rand(4, 5), torch.rand(20)
+        for order, args in (('(4,5) then (20,)', (xa, ya)), ('(20,) then (4,5)', (ya, xa))):
+            got = solver.get_solution()(*args)
+            ref = solver.get_solution()(args[0].reshape(-1), args[1].reshape(-1))
+            if tuple(got.shape) != tuple(args[0].shape) or not torch.equal(got.reshape(-1), ref.reshape(-1)):
+                bad.append(dict(case=name, violated='result does not have the shape of the first coordinate', coordinates=order, got=list(got.shape)))
+            res = solver.get_residuals(*args)
+            if tuple(res.shape) != tuple(args[0].shape):
+                bad.append(dict(case=name, violated='residual does not have the shape of the first coordinate', coordinates=order, got=list(res.shape)))
+        # (v) the same tensor object passed for two coordinates (points on the diagonal x = y): the equations still see partial derivatives
+        xd = torch.rand(6, 1)
+        res = solver.get_residuals(xd, xd)
+        c1, c2 = xd.clone().requires_grad_(), xd.clone().requires_grad_()
+        fs = solver.get_solution(copy=False, best=True)(c1, c2)
+        want = eqs(fs, c1, c2)[0]
+        if not torch.allclose(res.reshape(-1), want.reshape(-1).detach(), rtol=0, atol=1e-12):
+            bad.append(dict(case=name, violated='get_residuals with one tensor passed for both coordinates differs from the equations applied to '
+                            'the solution (partial derivatives became total derivatives)', got=res.reshape(-1).tolist()[:4], want=want.reshape(-1).tolist()[:4]))
         # spherical harmonics solution: sum_k enforce(net, r)_k * Y_k
         hf = RealSphericalHarmonics(max_degree=2)
         net = FCNN(1, 9, hidden_units=(5,))
